@@ -43,7 +43,7 @@ from harness.common import LEAN, REPO, VERIF, Check, InfraError, sh
 
 EPS = 1e-8
 CACHE = VERIF / '.cache'
-GEN_VERSION = 'pipe-batch-4'
+GEN_VERSION = 'pipe-batch-5'
 
 
 # =========================================================================
@@ -286,6 +286,10 @@ def rand_state(rng: random.Random, width: int, radix: int, style: str):
     elif style == 'w':
         for k in range(width):
             v[radix ** k] = 1
+    elif style == 'one':
+        v[dim - 1] = 1
+    elif style == 'plus':
+        v[:] = 1
     v = v / np.linalg.norm(v)
     return StateVector(v, [radix] * width)
 
@@ -317,10 +321,13 @@ def jobs_for(seed: int, tier: str) -> list[dict]:
     jobs: list[dict] = []
 
     def J(tag, kind, inputs, model, level, ms=3, thr=None, cseed=None,
-          expect=None):
+          expect=None, local=False):
+        # local=True: executed IN PROCESS on a synchronous runtime handle (run_in_process):
+        # cells that raise on the code as it is (recorded findings) would otherwise take the
+        # shared attached runtime down once per job
         jobs.append({'tag': tag, 'kind': kind, 'inputs': inputs,
                      'model': model, 'level': level, 'ms': ms, 'thr': thr,
-                     'cseed': cseed, 'expect': expect,
+                     'cseed': cseed, 'expect': expect, 'local': local,
                      'rseed': rng.randrange(2 ** 31)})
 
     def circ(width, nops, **kw):
@@ -334,8 +341,9 @@ def jobs_for(seed: int, tier: str) -> list[dict]:
       [circ(3, rng.randint(5, 8), measure=True, barrier=True),
        circ(4, rng.randint(6, 9), blocked=True)],
       {'n': 4, 'shape': sparse, 'gates': 'cx-u3'}, 1, cseed=seed)
+    # regression (fixed ea1f82a): a list of circuits with equal operation counts
     J('probe-list-equal-ops', 'circuit', [circ(2, 3), circ(2, 3)],
-      {'n': 2, 'shape': 'a2a', 'gates': 'cx-u3'}, 1, expect='list-raises')
+      {'n': 2, 'shape': 'a2a', 'gates': 'cx-u3'}, 1, ms=2, thr=1e-2)
     J('circ-3q-gate', 'circuit', [circ(4, rng.randint(5, 7), three=True)],
       {'n': rng.choice([4, 5]), 'shape': rng.choice(['star', 'line']),
        'gates': 'cx-u3'}, rng.choice([1, 2]), ms=3)
@@ -344,7 +352,7 @@ def jobs_for(seed: int, tier: str) -> list[dict]:
        'gates': rng.choice(['cz-rz-sx', 'cx-u1-rx'])}, 1)
     J('circ-general-sq', 'circuit', [circ(3, rng.randint(4, 6))],
       {'n': rng.choice([3, 4]), 'shape': 'line',
-       'gates': rng.choice(['cz-varu', 'iswap-u3'])}, rng.choice([1, 2]),
+       'gates': 'iswap-u3'}, rng.choice([1, 2]),
       ms=2, thr=1e-2)
     J('circ-small', 'circuit',
       [circ(1, 4), circ(2, rng.randint(3, 6), blocked=True, barrier=True)],
@@ -364,17 +372,17 @@ def jobs_for(seed: int, tier: str) -> list[dict]:
        {'t': 'unitary', 'width': 2, 'radix': 2,
         'style': rng.choice(styles[1:])}],
       {'n': 2, 'shape': rng.choice(['a2a', 'line']),
-       'gates': rng.choice(['cx-u3', 'cz-varu'])},
+       'gates': 'cx-u3'},
       rng.choice([1, 2]), ms=2, thr=1e-2)
     J('uni-1q', 'unitary',
       [{'t': 'unitary', 'width': 1, 'radix': 2, 'style': 'haar'}],
       {'n': 1, 'shape': 'a2a',
-       'gates': rng.choice(['cx-u3', 'cz-rz-sx', 'cz-varu'])},
+       'gates': rng.choice(['cx-u3', 'cz-rz-sx'])},
       rng.choice([1, 2, 3]))
     J('uni-qutrit-1q', 'unitary',
       [{'t': 'unitary', 'width': 1, 'radix': 3, 'style': 'haar'}],
       {'n': 1, 'shape': 'a2a', 'gates': 'qutrit', 'radix': 3}, 1)
-    # --- states and state systems (known finding: RX/RY/RZ in the output)
+    # --- states and state systems (fixed 5e098c4: RX/RY/RZ in the output)
     J('state-2q-list', 'state',
       [{'t': 'state', 'width': 2, 'radix': 2,
         'style': rng.choice(['ghz', 'w', 'basis'])},
@@ -387,8 +395,12 @@ def jobs_for(seed: int, tier: str) -> list[dict]:
     J('probe-unitary-wide', 'unitary',
       [{'t': 'unitary', 'width': 1, 'radix': 2, 'style': 'haar'}],
       {'n': 3, 'shape': 'line', 'gates': 'cx-u3'}, 1, expect='width')
+    J('probe-state-wide', 'state',
+      [{'t': 'state', 'width': 1, 'radix': 2, 'style': 'random'}],
+      {'n': 2, 'shape': 'line', 'gates': 'cx-u3'}, 1, expect='width')
+    # regression (fixed ded687c): one-qudit circuit at level 4 on a wider machine
     J('probe-L4-w1-wide', 'circuit', [circ(1, 3)],
-      {'n': 3, 'shape': 'line', 'gates': 'cx-u3'}, 4, expect='width')
+      {'n': 3, 'shape': 'line', 'gates': 'cx-u3'}, 4)
     J('probe-swap-L4', 'unitary',
       [{'t': 'unitary', 'width': 2, 'radix': 2, 'style': 'swap'}],
       {'n': 2, 'shape': 'a2a', 'gates': 'cx-u3'}, 4, ms=2, thr=1e-2,
@@ -396,6 +408,63 @@ def jobs_for(seed: int, tier: str) -> list[dict]:
     J('probe-many-sparse', 'circuit', [circ(4, 9, routing=True)],
       {'n': 4, 'shape': 'line', 'gates': 'ccx-cx-u3'}, 1, cseed=1,
       expect='uncoupled')
+    # --- the (input kind x optimisation level) matrix: EVERY cell is executed end to end in
+    #     every tier, at the smallest width that reaches the cell's passes (see CELLS below and
+    #     design_notes/PIPE.md "coverage of the quick batch").  Cells that raise on the code as
+    #     it is (recorded findings) run in process.
+    for lvl in (2, 3, 4):
+        J(f'cell-circuit-L{lvl}', 'circuit',
+          [circ(2, 4, measure=(lvl == 2), barrier=(lvl == 3))],
+          {'n': 2, 'shape': 'line', 'gates': 'cx-u3'}, lvl, ms=2, thr=1e-2)
+    for lvl in (1, 2, 3, 4):
+        # one-qubit unitaries; the VariableUnitaryGate model is the regression of 10f69ef
+        J(f'cell-unitary-L{lvl}', 'unitary',
+          [{'t': 'unitary', 'width': 1, 'radix': 2, 'style': 'haar'}],
+          {'n': 1, 'shape': 'line',
+           'gates': 'cz-varu' if lvl in (1, 3) else 'cx-u3'}, lvl)
+    # states: |1> passes the one-qudit search (most of the time at level 2, always at level 3)
+    # and then reaches the single-qudit retarget and ScanningGateRemovalPass (regression of
+    # bad39d6 and 5e098c4); a two-qubit state at levels 2-3 takes minutes (the residual cost of a
+    # state target stalls around 7e-8 > synthesis_epsilon) and is left to the thorough tier
+    J('cell-state-L1', 'state',
+      [{'t': 'state', 'width': 1, 'radix': 2, 'style': 'random'}],
+      {'n': 1, 'shape': 'a2a', 'gates': 'cx-u3'}, 1)
+    for lvl in (2, 3):
+        J(f'cell-state-L{lvl}', 'state',
+          [{'t': 'state', 'width': 1, 'radix': 2, 'style': 'one'}],
+          {'n': 1, 'shape': 'a2a', 'gates': 'cx-u3'}, lvl, local=True)
+    J('cell-state-L4', 'state',
+      [{'t': 'state', 'width': 2, 'radix': 2, 'style': 'ghz'}],
+      {'n': 2, 'shape': 'a2a', 'gates': 'cx-u3'}, 4, ms=2, thr=1e-2,
+      local=True, expect='pas-on-state')
+    for lvl in (2, 3):
+        J(f'cell-system-L{lvl}', 'system',
+          [{'t': 'system', 'width': 2, 'radix': 2, 'npairs': 1}],
+          {'n': 2, 'shape': 'a2a', 'gates': 'cx-u3'}, lvl, ms=2, thr=1e-2)
+    J('cell-system-L4', 'system',
+      [{'t': 'system', 'width': 2, 'radix': 2, 'npairs': 1}],
+      {'n': 2, 'shape': 'a2a', 'gates': 'cx-u3'}, 4, ms=2, thr=1e-2,
+      local=True, expect='pas-on-state')
+    # --- probes of the recorded raise findings (in process)
+    J('probe-state-1q-L2', 'state',
+      [{'t': 'state', 'width': 1, 'radix': 2, 'style': 'plus'}],
+      {'n': 1, 'shape': 'a2a', 'gates': 'cx-u3'}, 2, local=True,
+      expect='one-qudit-state')
+    J('probe-system-1q', 'system',
+      [{'t': 'system', 'width': 1, 'radix': 2, 'npairs': 1}],
+      {'n': 1, 'shape': 'a2a', 'gates': 'cx-u3'}, 1, local=True,
+      expect='one-qudit-state')
+    J('probe-czvaru-circuit', 'circuit', [circ(2, 4)],
+      {'n': 2, 'shape': 'line', 'gates': 'cz-varu'}, 1, ms=2, thr=1e-2,
+      local=True, expect='no-instantiater')
+    J('probe-czvaru-unitary', 'unitary',
+      [{'t': 'unitary', 'width': 2, 'radix': 2, 'style': 'haar'}],
+      {'n': 2, 'shape': 'line', 'gates': 'cz-varu'}, 1, ms=2, thr=1e-2,
+      local=True, expect='no-instantiater')
+    J('probe-qutrit-state', 'state',
+      [{'t': 'state', 'width': 1, 'radix': 3, 'style': 'random'}],
+      {'n': 1, 'shape': 'a2a', 'gates': 'qutrit', 'radix': 3}, 1, local=True,
+      expect='forced-minimization')
     if tier == 'thorough':
         n_extra = 290
         for i in range(n_extra):
@@ -436,26 +505,30 @@ def jobs_for(seed: int, tier: str) -> list[dict]:
                         'iswap-u3']),
                    'radix': radix}, level)
             elif kind == 'state':
-                w = rng.choice([1, 2, 2, 3])
+                lv = rng.choice([1, 1, 1, 2, 3, 4])
+                # levels 2-3 on two qubits take minutes (residual cost floor): a few only
+                w = rng.choice([1, 2, 2, 3]) if lv == 1 else rng.choice(
+                    [1, 1, 1, 2])
                 J(f'x{i}-state', 'state',
                   [{'t': 'state', 'width': w, 'radix': 2,
-                    'style': rng.choice(['random', 'basis', 'ghz', 'w'])}],
+                    'style': rng.choice(['random', 'basis', 'ghz', 'w', 'one'])}],
                   {'n': w, 'shape': 'a2a',
                    'gates': rng.choice(['cx-u3', 'cx-u3', 'iswap-u3',
                                         'cz-varu'])},
-                  rng.choice([1, 2]))
+                  lv, local=(lv == 4 or w == 1))
             else:
-                w = rng.choice([1, 2])
+                w = rng.choice([1, 2, 2])
+                lv = rng.choice([1, 1, 2, 3, 4])
                 J(f'x{i}-system', 'system',
                   [{'t': 'system', 'width': w, 'radix': 2,
                     'npairs': rng.randint(1, 2 ** w)}],
                   {'n': w, 'shape': 'a2a', 'gates': 'cx-u3'},
-                  rng.choice([1, 2]))
+                  lv, local=(lv == 4 or w == 1))
     # --- qutrit circuit with a single-qudit gate that is not native (GeneralSQDecomposition
     #     raised on qutrit blocks before the fix d7fbe96)
     J('probe-qutrit-sq', 'circuit',
       [{'t': 'qutrit-sq'}], {'n': 2, 'shape': 'a2a', 'gates': 'qutrit',
-                             'radix': 3}, 1)
+                             'radix': 3}, 1, ms=2, thr=1e-2)
     # keep the batch inside compile()'s own input domain (its argument guards, transcribed in
     # translate/workflows.py and compared with the real ones by malformed_stream)
     from translate.workflows import outside_compile_domain
@@ -505,21 +578,12 @@ def build_input(spec: dict, rng: random.Random):
 
 
 def build_inputs(j: dict) -> list:
-    """The inputs of a job.  compile() of a LIST of circuits that all hold the same number of
-    operations raises TypeError (StateVector.is_pure_state -> np.abs of an object array: known
-    finding, probed by the job `probe-list-equal-ops`); other list jobs avoid that shape."""
-    G = _gates()
+    """The inputs of a job (built from the job's own rng, so a job replays alone).  Lists of
+    circuits with equal operation counts are not avoided any more (compile() raised TypeError on
+    them before the /repo fix ea1f82a; `probe-list-equal-ops` keeps one such list in every
+    batch)."""
     rng = random.Random(j['rseed'])
-    ins = [build_input(s, rng) for s in j['inputs']]
-    from bqskit.ir.circuit import Circuit
-    if j.get('expect') != 'list-raises' and len(ins) > 1 and all(
-            isinstance(c, Circuit) for c in ins):
-        seen = set()
-        for c in ins:
-            while c.num_operations in seen and c.radixes[0] == 2:
-                c.insert_gate(0, G.HGate(), 0)
-            seen.add(c.num_operations)
-    return ins
+    return [build_input(s, rng) for s in j['inputs']]
 
 
 def count_replaced(data) -> int:
@@ -541,35 +605,7 @@ def count_replaced(data) -> int:
     return k
 
 
-class LocalRuntime:
-    """A RuntimeHandle that runs every mapped task in this process, in order (passes only use
-    `get_runtime().map`).  Used for DIAGNOSIS only: to tell a pass that raises (a defect of the
-    code: under the attached runtime it shows as 'Server connection unexpectedly closed') from a
-    runtime lost to another process of this shared machine."""
-
-    async def map(self, fn, *args, **kwargs):
-        import inspect
-        kwargs.pop('log_context', None)
-        kwargs.pop('task_name', None)
-        out = []
-        for a in zip(*args):
-            r = fn(*a, **kwargs)
-            if inspect.isawaitable(r):
-                r = await r
-            out.append(r)
-        return out
-
-    async def submit(self, fn, *args, **kwargs):
-        import inspect
-        kwargs.pop('log_context', None)
-        kwargs.pop('task_name', None)
-        r = fn(*args, **kwargs)
-        if inspect.isawaitable(r):
-            r = await r
-        return r
-
-    def get_cache(self):
-        return {}
+from translate.workflows import LocalRuntime  # noqa: E402  (one synchronous RuntimeHandle)
 
 
 def run_in_process(j: dict, inp, model, timeout: int = 240):
@@ -602,23 +638,71 @@ def run_in_process(j: dict, inp, model, timeout: int = 240):
     return c, list(d.initial_mapping), list(d.final_mapping), d
 
 
-def diagnose_lost(res: dict, log) -> str | None:
-    """A job under which the runtime disappeared three times: does one of its passes raise?"""
+def raise_site(e: BaseException) -> str:
+    """Innermost frame of the repo in the traceback: `file.py:function`."""
+    tb = traceback.extract_tb(e.__traceback__)
+    return next((f'{Path(f.filename).name}:{f.name}' for f in reversed(tb)
+                 if '/bqskit/' in f.filename), '?:?')
+
+
+def diagnose(res: dict, log, tries: int = 1) -> str | None:
+    """Re-run the job's workflow IN PROCESS (no runtime): does one of its passes raise?
+    Returns 'Type: message [at file.py:function]' or None.  Used for every compile() that
+    raised or lost its runtime: a raise is always diagnosed, never set aside."""
     from harness.pipe_rt import JobTimeout
     j = res['job']
-    for inp in res['inputs']:
-        try:
-            run_in_process(j, inp, res['model'])
-        except JobTimeout:
-            return None
-        except Exception as e:
-            tb = traceback.extract_tb(e.__traceback__)
-            site = next((f'{Path(f.filename).name}:{f.name}'
-                         for f in reversed(tb) if '/bqskit/' in f.filename),
-                        '?')
-            log(f"  {j['tag']}: raises in-process: {type(e).__name__} at {site}")
-            return f'{type(e).__name__}: {e} [at {site}]'[:500]
+    for _ in range(tries):
+        for inp in res['inputs']:
+            try:
+                run_in_process(j, inp, res['model'])
+            except JobTimeout:
+                return None
+            except Exception as e:
+                site = raise_site(e)
+                log(f"  {j['tag']}: raises in-process: {type(e).__name__} at {site}")
+                msg = f'{type(e).__name__}: {e}'.replace('\n', ' ')[:400]
+                return f'{msg} [at {site}]'
     return None
+
+
+def diagnose_lost(res: dict, log) -> str | None:
+    return diagnose(res, log)
+
+
+def run_local(job: dict, log) -> dict:
+    """One job executed in process (what compile() does per input, on a synchronous runtime
+    handle): for the cells that raise on the code as it is."""
+    from harness.pipe_rt import JobTimeout
+    ins = build_inputs(job)
+    model = build_model(job['model'])
+    res = {'job': job, 'inputs': ins, 'model': model, 'out': None, 'exc': None,
+           'K': None, 'err': None, 'dt': 0.0, 'local': True}
+    t0 = time.time()
+    outs, Ks, errs = [], [], []
+    for inp in ins:
+        try:
+            c, pi, pf, d = run_in_process(job, inp, model, timeout=300)
+            outs.append((c, tuple(pi), tuple(pf)))
+            Ks.append(count_replaced(d))
+            errs.append(float(d.error))
+        except JobTimeout as e:
+            res['exc'] = f'JobTimeout: {e}'
+            res['timeout'] = True
+            break
+        except Exception as e:
+            res['in_process'] = (f'{type(e).__name__}: {e} '
+                                 f'[at {raise_site(e)}]').replace('\n', ' ')
+            if len(res['in_process']) > 500:
+                res['in_process'] = (res['in_process'][:400] + ' ... '
+                                     + f'[at {raise_site(e)}]')
+            res['exc'] = 'IN-PROCESS: ' + res['in_process']
+            break
+    if res['exc'] is None:
+        res['out'], res['K'], res['err'] = outs, Ks, errs
+    res['dt'] = time.time() - t0
+    log(f"  {job['tag']} (in process): {res['dt']:.1f}s"
+        + (f" EXC {res['exc'][:110]}" if res['exc'] else ''))
+    return res
 
 
 def run_batch(ck: Check, jobs: list[dict], workers: int, log) -> list[dict]:
@@ -628,12 +712,19 @@ def run_batch(ck: Check, jobs: list[dict], workers: int, log) -> list[dict]:
     from harness.pipe_rt import (JobTimeout, RuntimeUnavailable, alarm,
                                  shared_compiler)
     job_timeout = 600 if ck.tier == 'quick' else 900
-    prepared = []
-    for j in jobs:
-        ins = build_inputs(j)
-        prepared.append((j, ins, build_model(j['model'])))
     results: list[dict] = []
     t_all = time.time()
+    # cells that raise on the code as it is: in process, before the runtime lock is taken
+    for j in jobs:
+        if j.get('local'):
+            results.append(run_local(j, log))
+    log(f'in-process jobs: {len(results)} in {time.time() - t_all:.0f}s')
+    prepared = []
+    for j in jobs:
+        if j.get('local'):
+            continue
+        ins = build_inputs(j)
+        prepared.append((j, ins, build_model(j['model'])))
     todo = list(prepared)
     attempts: dict[str, int] = {}
     restarts = 0
@@ -693,8 +784,10 @@ def run_batch(ck: Check, jobs: list[dict], workers: int, log) -> list[dict]:
                         attempts[j['tag']] = attempts.get(j['tag'], 0) + 1
                         if res['exc'].startswith('JobTimeout'):
                             # too slow for the tier on this machine: set aside, no retry
+                            # (a timeout, not a raise; listed in the evidence)
                             attempts[j['tag']] = 3
                             res['in_process'] = None
+                            res['timeout'] = True
                         elif attempts[j['tag']] == 1:
                             # cheap diagnosis first: does a pass of this job raise?
                             res['in_process'] = diagnose_lost(res, log)
@@ -725,6 +818,9 @@ def run_batch(ck: Check, jobs: list[dict], workers: int, log) -> list[dict]:
     for res in results:
         if res.get('lost') and 'in_process' not in res:
             res['in_process'] = diagnose_lost(res, log)
+        elif res['exc'] is not None and 'in_process' not in res:
+            # compile() raised (the runtime survived): where?  (random failures get 3 tries)
+            res['in_process'] = diagnose(res, log, tries=3)
     return results
 
 
@@ -735,6 +831,12 @@ def get_batch(ck: Check, log) -> list[dict]:
     if lim:
         jobs = jobs[:int(lim)]
         ck.coverage['batch_truncated_to'] = int(lim)
+    if os.environ.get('VERIF_PIPE_LOCAL'):
+        # development aid (the machine-wide runtime lock can be queued for an hour): every
+        # job in process on the synchronous runtime handle; recorded in the evidence
+        for j in jobs:
+            j['local'] = True
+        ck.coverage['batch_all_in_process'] = True
     key = hashlib.sha256(
         (repo_sha() + f'/{ck.seed}/{ck.tier}/{GEN_VERSION}/'
          + repr(jobs)).encode()).hexdigest()[:24]
@@ -859,6 +961,17 @@ def oracle_c02(ck: Check, res: dict, out, idx: int, emit):
         if model.is_compatible(base) is not True:
             emit('C02', 'c02-is-compatible-rejects-good', 'is_compatible '
                  'rejects a circuit that passes the three clauses', res, idx)
+        for name, p in placeholder_variants(
+                model, base, random.Random(res['job']['rseed'] + idx)):
+            ck.bump('c02_perturbations', name)
+            try:
+                v = model.is_compatible(p)
+            except Exception as e:
+                v = f'raises {type(e).__name__}'
+            if v is not True:
+                emit('C02', 'c02-is-compatible-disagrees:placeholders',
+                     f'is_compatible = {v} on an executable output to which only '
+                     f'a placeholder was added: {name}', res, idx)
         r = model.radixes[0]
         pert = []
         foreign = next((g for g in (G.TGate(), G.HGate(), G.SGate(),
@@ -1129,21 +1242,44 @@ def alpha(model, c) -> dict:
 
 
 def compat_line(model, c, placement, ids: dict) -> str:
+    """One `compat` request: the model (radixes, gate ids, edges) and the circuit as
+    is_compatible reads it -- radixes and the operations in `for op in circuit` order, each as
+    `gate-id placeholder k q1 .. qk`."""
     def gid(g):
         if g not in ids:
             ids[g] = len(ids) + 1
         return ids[g]
     mg = ' '.join(str(gid(g)) for g in sorted(model.gate_set,
                                               key=lambda g: g.name))
-    cg = ' '.join(str(gid(g)) for g in sorted(c.gate_set,
-                                              key=lambda g: g.name))
     me = ' '.join(f'{a} {b}' for a, b in sorted(
         tuple(e) for e in model.coupling_graph))
-    ce = ' '.join(f'{a} {b}' for a, b in sorted(
-        tuple(e) for e in c.coupling_graph))
+    ops = ' '.join(
+        f"{gid(op.gate)} {int(is_placeholder(op.gate))} {len(op.location)} "
+        + ' '.join(map(str, op.location)) for op in c)
     pl = '-' if placement is None else ' '.join(map(str, placement))
     return (f"compat {' '.join(map(str, model.radixes))} | {mg} | {me} | "
-            f"{' '.join(map(str, c.radixes))} | {cg} | {ce} | {pl}")
+            f"{' '.join(map(str, c.radixes))} | {ops} | {pl}")
+
+
+def placeholder_variants(model, base, rng) -> list:
+    """Circuits that differ from `base` only by placeholder operations: a barrier over ALL
+    qudits (its location spans every pair, coupled or not), a measurement, a reset."""
+    G = _gates()
+    out = []
+    n = base.num_qudits
+    if n >= 2:
+        p = base.copy()
+        p.append_gate(G.BarrierPlaceholder(n, list(base.radixes)), list(range(n)))
+        out.append(('barrier-over-all', p))
+    if base.radixes[0] == 2:      # MeasurementPlaceholder is a qubit pseudo-gate
+        p = base.copy()
+        q = rng.randrange(n)
+        p.append_gate(G.MeasurementPlaceholder([('c', 1)], {q: ('c', 0)}), [q])
+        out.append(('measurement', p))
+    p = base.copy()
+    p.append_gate(G.Reset(base.radixes[0]), rng.randrange(n))
+    out.append(('reset', p))
+    return out
 
 
 def correspondence(ck: Check, results: list[dict], pid: str, names: set[str],
@@ -1181,6 +1317,14 @@ def correspondence(ck: Check, results: list[dict], pid: str, names: set[str],
             base = out[0]
             variants = [base, strip_placeholders(base)]
             p = strip_placeholders(base)
+            variants += [v for _n, v in placeholder_variants(model, p, rng)]
+            many = next((g for g in sorted(model.gate_set, key=lambda g: g.name)
+                         if g.num_qudits == 3), None)
+            if many is not None and p.num_qudits >= 3:
+                # a native three-qudit gate: every PAIR of its location must be coupled
+                p4 = p.copy()
+                p4.append_gate(many, rng.sample(range(p.num_qudits), 3))
+                variants.append(p4)
             if p.radixes[0] == 2:
                 p2 = p.copy()
                 p2.append_gate(G.TGate(), rng.randrange(p.num_qudits))
@@ -1257,7 +1401,10 @@ def correspondence(ck: Check, results: list[dict], pid: str, names: set[str],
         elif ex[0] == 'compat':
             _t, res, idx, real, pl = ex
             ck.bump('compat_correspondence', f'{real}/{ans}')
-            agree = (real == ans) or (ans == 'raise' and real == 'false')
+            # both generator expressions of is_compatible are consumed in a fixed order
+            # (operations in circuit order, qudits in index order): exact agreement, also on
+            # whether an IndexError comes before an uncoupled pair / a radix mismatch
+            agree = (real == ans)
             if not agree and pid == 'C02':
                 ck.violation(
                     f'c02-is-compatible-model-differs:{real}-vs-{ans}',
@@ -1337,48 +1484,56 @@ def evaluate(ck: Check, results: list[dict], pid: str, log):
 
     ncomp = 0
     lost_jobs: list[str] = []
+    timeout_jobs: list[str] = []
+    cells: dict[str, int] = {}
     for res in results:
         j = res['job']
         ck.bump('jobs_by_kind', j['kind'])
         ck.bump('jobs_by_level', f"L{j['level']}")
         ck.bump('jobs_by_model',
                 f"{j['model']['shape']}/{j['model']['gates']}")
+        cell = f"{j['kind']}/L{j['level']}"
         if res['exc'] is not None:
             ck.bump('compile_raised', res['exc'].split(':')[0])
-            if j['expect'] == 'raises':
-                # compile() of a supported input raises (qutrit single-qudit path); the root
-                # cause is re-observed in-process by probe_qutrit_sq below
+            if res.get('timeout'):
+                # not a verdict and not a raise: slower than the tier's alarm on this machine
+                timeout_jobs.append(j['tag'])
                 continue
-            if res['exc'].startswith('RUNTIME-LOST'):
-                if 'in_process' not in res:
-                    res['in_process'] = diagnose_lost(res, log)
-                if res.get('in_process'):
-                    # one of the job's passes raises (reproduced without any runtime); under
-                    # the attached runtime that exception takes the server down
-                    w = res['inputs'][0].num_qudits
-                    emit('C03' if j['kind'] != 'circuit' else 'C01',
-                         f"compile-raises:{j['kind']}:w{w}:"
-                         f"{j['model']['gates']}:L{j['level']}:"
-                         f"{res['in_process'].split(':')[0]}",
-                         'compile() fails on a supported input: a pass raises '
-                         + res['in_process'] + ' (reproduced in-process without '
-                         'a runtime; with the attached runtime the client sees '
-                         '"Server connection unexpectedly closed")', res, 0)
-                else:
-                    # not a verdict: the runtime disappeared three times under this job
-                    lost_jobs.append(j['tag'])
+            if 'in_process' not in res:
+                res['in_process'] = diagnose(res, log, tries=3)
+            diag = res.get('in_process')
+            if res['exc'].startswith('RUNTIME-LOST') and not diag:
+                # not a verdict: the runtime disappeared three times under this job and none
+                # of its passes raises when the workflow is re-run in process
+                lost_jobs.append(j['tag'])
                 continue
-            if len(res['inputs']) > 1:
-                emit('C03', f"c03-list-input-raises:{j['kind']}:"
-                     f"{res['exc'].split(':')[0]}",
-                     'compile() of a list of inputs raised: '
-                     + res['exc'][:300], res, 0)
+            cells[cell] = cells.get(cell, 0) + 1
+            w = res['inputs'][0].num_qudits
+            if diag:
+                etype = diag.split(':')[0]
+                m = re.search(r'\[at [^:\]]*:([^\]]*)\]', diag)
+                site = m.group(1) if m else '?'
+                how = (' (reproduced in process without a runtime'
+                       + ('; with the attached runtime the client sees "Server '
+                          'connection unexpectedly closed")'
+                          if res['exc'].startswith('RUNTIME-LOST') else ')'))
+                what = 'a pass raises ' + diag + how
+            else:
+                etype = res['exc'].split(':')[0]
+                site = 'not-reproduced-in-process'
+                what = res['exc'][:300]
+            if len(res['inputs']) > 1 and not diag:
+                # the per-input workflows run fine in process: compile()'s own handling of
+                # the sequence raised
+                emit('C03', f"c03-list-input-raises:{j['kind']}:{etype}",
+                     'compile() of a list of inputs raised: ' + what, res, 0)
             else:
                 emit('C03' if j['kind'] != 'circuit' else 'C01',
-                     f"compile-raises:{j['kind']}:{res['exc'].split(':')[0]}",
-                     'compile() raised on a supported input: '
-                     + res['exc'][:300], res, 0)
+                     f"compile-raises:{j['kind']}:w{w}:{j['model']['gates']}:"
+                     f"L{j['level']}:{etype}:{site}",
+                     'compile() fails on a supported input: ' + what, res, 0)
             continue
+        cells[cell] = cells.get(cell, 0) + 1
         outs = res['out']
         if len(outs) != len(res['inputs']):
             emit('C03', 'c03-list-length', f'{len(res["inputs"])} inputs, '
@@ -1412,6 +1567,18 @@ def evaluate(ck: Check, results: list[dict], pid: str, log):
                 'seconds': round(res['dt'], 1)})
     ck.coverage['compilations'] = ncomp
     ck.coverage['jobs_set_aside_runtime_lost'] = lost_jobs
+    ck.coverage['jobs_set_aside_timeout'] = timeout_jobs
+    # the (input kind x optimisation level) matrix: every cell executed end to end (returned,
+    # or raised and was diagnosed) -- a cell nobody executes is how the level >= 2 state
+    # crash fixed by bad39d6 stayed unseen
+    ck.coverage['cells_executed'] = dict(sorted(cells.items()))
+    missing = [f'{k}/L{l}' for k in ('circuit', 'unitary', 'state', 'system')
+               for l in (1, 2, 3, 4) if f'{k}/L{l}' not in cells]
+    ck.coverage['cells_not_executed'] = missing
+    if missing and not ck.replay_path and not os.environ.get('VERIF_PIPE_LIMIT') \
+            and not (lost_jobs or timeout_jobs):
+        raise InfraError('the batch leaves (input kind x level) cells unexecuted: '
+                         + ', '.join(missing))
     if len(lost_jobs) * 3 > len(results):
         raise InfraError(f'the runtime was lost under {len(lost_jobs)} of '
                          f'{len(results)} jobs: {lost_jobs[:5]}')
@@ -1453,6 +1620,68 @@ def probe_qutrit_sq(ck: Check, pid: str):
             found_input=True)
 
 
+def probe_fixed_in_process(ck: Check, pid: str):
+    """Regression oracles of two /repo fixes that need no runtime."""
+    from bqskit.compiler.machine import MachineModel
+    from bqskit.ir.circuit import Circuit
+    from bqskit.qis.graph import CouplingGraph
+    from bqskit.qis.state.state import StateVector
+    G = _gates()
+    # 26675ef: placeholders are not gates of the machine
+    model = MachineModel(3, CouplingGraph.linear(3),
+                         {G.CCXGate(), G.CNOTGate(), G.U3Gate()})
+    c = Circuit(3)
+    c.append_gate(G.U3Gate(), 0, [0.1, 0.2, 0.3])
+    c.append_gate(G.CNOTGate(), (1, 0))
+    c.append_gate(G.BarrierPlaceholder(3), (0, 1, 2))
+    c.append_gate(G.CNOTGate(), (1, 2))
+    c.append_gate(G.Reset(), 1)
+    c.append_gate(G.MeasurementPlaceholder([('c', 2)], {0: ('c', 0), 2: ('c', 1)}),
+                  (0, 2))
+    try:
+        v = model.is_compatible(c)
+    except Exception as e:
+        v = f'raises {type(e).__name__}'
+    ck.bump('probe_is_compatible_placeholders', str(v))
+    ck.count(('probe', 'is_compatible-placeholders'))
+    if pid == 'C02' and v is not True:
+        ck.violation(
+            'c02-is-compatible-disagrees:placeholders',
+            f'MachineModel.is_compatible = {v} for a circuit of native gates on coupled '
+            'qudits that also holds a barrier over (0,1,2), a reset and a measurement '
+            'on (0,2) of a 3-qubit line',
+            {'how': 'MachineModel(3, CouplingGraph.linear(3), {CCX, CNOT, U3})'
+             '.is_compatible(U3(0); CNOT(1,0); Barrier(0,1,2); CNOT(1,2); Reset(1); '
+             'Measure(0,2))'}, found_input=True)
+    c2 = Circuit(3)
+    c2.append_gate(G.CCXGate(), (0, 1, 2))     # connected location, (0,2) is not an edge
+    v2 = model.is_compatible(c2)
+    ck.bump('probe_is_compatible_all_pairs', str(v2))
+    if pid == 'C02' and v2 is not False:
+        ck.violation(
+            'c02-is-compatible-accepts-bad:many-qudit-location',
+            'MachineModel.is_compatible accepts CCX(0,1,2) on a 3-qubit line although '
+            'qudits 0 and 2 are not coupled', {'how': 'see what'}, found_input=True)
+    # ea1f82a: the list test of compile() must not raise on a sequence of circuits
+    a, b = Circuit(2), Circuit(2)
+    for x in (a, b):
+        x.append_gate(G.HGate(), 0)
+        x.append_gate(G.CNOTGate(), (0, 1))
+    try:
+        r = StateVector.is_pure_state([a, b])
+    except Exception as e:
+        r = f'raises {type(e).__name__}: {e}'
+    ck.bump('probe_is_pure_state_on_circuits', str(r)[:40])
+    ck.count(('probe', 'is_pure_state-list'))
+    if pid == 'C03' and r is not False:
+        ck.violation(
+            'c03-list-input-raises:circuit:TypeError',
+            f'StateVector.is_pure_state([c1, c2]) = {r} for two circuits with equal '
+            'operation counts (compile() calls it to recognise a sequence of inputs)',
+            {'how': 'StateVector.is_pure_state([Circuit: H(0) CNOT(0,1), same])'},
+            found_input=True)
+
+
 def targeted_search(ck: Check, failing: list[str], log) -> list[dict]:
     """Compile inputs of exactly the configurations whose obligation fails."""
     rng = random.Random(f'search/{ck.seed}')
@@ -1489,17 +1718,21 @@ def targeted_search(ck: Check, failing: list[str], log) -> list[dict]:
             ins = [{'t': 'unitary', 'width': width, 'radix': radix,
                     'style': 'haar'}]
         elif kind == 'state':
+            # |1..1> gets through the one-qudit search at levels 2-3 (see jobs_for)
             ins = [{'t': 'state', 'width': width, 'radix': radix,
-                    'style': 'random'}]
+                    'style': 'one' if int(lvl[1:]) >= 2 else 'random'}]
         else:
             ins = [{'t': 'system', 'width': width, 'radix': radix,
                     'npairs': 1}]
         if width > 2 and kind != 'circuit':
             continue
+        if kind == 'state' and width >= 2 and int(lvl[1:]) in (2, 3):
+            continue        # minutes per compilation (residual cost floor of state targets)
         jobs.append({'tag': f'search:{name}', 'kind': kind, 'inputs': ins,
                      'model': model, 'level': int(lvl[1:]),
                      'ms': int(ms[2:]), 'thr': None, 'cseed': None,
-                     'expect': None, 'rseed': rng.randrange(2 ** 31)})
+                     'expect': None, 'rseed': rng.randrange(2 ** 31),
+                     'local': bool(os.environ.get('VERIF_PIPE_LOCAL'))})
     if not jobs:
         return []
     log(f'targeted search: {len(jobs)} compile() calls')
@@ -1641,6 +1874,10 @@ def run_check(ck: Check, pid: str):
     ck.coverage['workflow_pass_classes'] = len(summary['pass_classes'])
     ck.coverage['workflow_nodes_max'] = summary['nodes_max']
     ck.coverage['generated_sha'] = summary['sha']
+    # numeric leaves the translator RAN on dummy targets and that raised (memoised classes)
+    ck.coverage['translator_dummy_raises'] = len(summary.get('dummy_raises', []))
+    ck.coverage['translator_dummy_runs'] = {
+        k: v for k, v in summary.get('dummy_time', {}).items() if k.endswith('/n')}
     log(f"translator: {summary['workflows']} workflows")
     # 2. Lean obligations
     proved = ck.lean_obligations()
@@ -1670,6 +1907,7 @@ def run_check(ck: Check, pid: str):
     # 4. oracles
     evaluate(ck, results + extra, pid, log)
     probe_qutrit_sq(ck, pid)
+    probe_fixed_in_process(ck, pid)
     malformed_stream(ck, pid)
     correspondence(ck, results + extra, pid, set(summary['names']), log)
     ck.coverage['rule'] = (
